@@ -23,8 +23,24 @@ def lookup_loops(F):
     """Contains and GetIndex iterate the same range with the same predicate."""
     out = []
     shapes = {}
+    # both lookups may delegate the scan to one shared search helper (`bool Find(archive, name, indexOut)`): then there is one
+    # scan, judged in the helper, and what remains is how each lookup uses its verdict
+    shared = {}
     for name in ("Contains", "GetIndex"):
         fn = F.fn(ARC + "::" + name, nparams=1)
+        if any(nd["k"] == "ForStmt" for nd in fn.nodes):
+            continue
+        for nd in fn.nodes:
+            if nd["k"] in CALLS:
+                for cal in F.callees(nd):
+                    if cal.cfg and cal.key != fn.key and sum(1 for x in cal.nodes if x["k"] == "ForStmt") == 1 and cal.file.startswith(F.repo):
+                        shared.setdefault(name, []).append((nd, cal))
+    helper = None
+    if len(shared) == 2 and all(len(v) == 1 for v in shared.values()) and shared["Contains"][0][1].key == shared["GetIndex"][0][1].key:
+        helper = shared["Contains"][0][1]
+    for name in ("Contains", "GetIndex"):
+        outer = F.fn(ARC + "::" + name, nparams=1)
+        fn = helper if helper is not None else outer
         loops = [nd for nd in fn.nodes if nd["k"] == "ForStmt"]
         if len(loops) != 1:
             raise AnalysisBroken("%s: expected one loop" % fn.qn)
@@ -34,6 +50,20 @@ def lookup_loops(F):
         body = fn.subtree(lp["body"])
         all_ifs = [fn.n(x) for x in body if fn.n(x)["k"] == "IfStmt"]
         ren = {iv: ("I",), P(fn, 0): ("NAME",)}
+        if helper is not None:
+            # the helper's parameters, named by what the lookup hands it: the archive itself, the name, a result slot
+            call = shared[name][0][0]
+            ren = {iv: ("I",)}
+            for i, p in enumerate(helper.params):
+                if i < len(call.get("args", [])):
+                    at = outer.term(call["args"][i])
+                    pv = ("var", p["n"], p["d"])
+                    if at == P(outer, 0):
+                        ren[pv] = ("NAME",)
+                    elif at == ("un", "*", ("this",)) or at == ("this",):
+                        ren[pv] = ("this",)
+                    else:
+                        ren[pv] = ("SLOT", i)
         # every way out of the loop body other than falling through to the next iteration, with the test that guards it
         exits = []
         for x in body:
@@ -99,7 +129,40 @@ def lookup_loops(F):
                 raise AnalysisBroken("%s overrides GetIndex with an unrecognised lookup" % ov.qn)
     # GetIndex returns the loop index of the match; Contains returns true there
     inst = ARC + "::GetIndex#returns-match"
-    if len(r2) == 1 and f2.term(r2[0]["value"]) == v2:
+    if helper is not None:
+        # the helper stores the loop index into its result slot where it reports the match, and GetIndex returns the local it
+        # passed as that slot on the branch where the helper reported a match
+        gi = F.fn(ARC + "::GetIndex", nparams=1)
+        call = shared["GetIndex"][0][0]
+        then_ = helper.subtree(i2["then"])
+        slot = None
+        for x in then_:
+            nx = helper.n(x)
+            if nx["k"] == "BinaryOperator" and nx.get("op") == "=":
+                l, r = helper.term(helper.kids(x)[0]), helper.term(helper.kids(x)[1])
+                if r == v2 and l[0] == "var":
+                    slot = [i for i, p in enumerate(helper.params) if ("var", p["n"], p["d"]) == l and p.get("ref") and not p.get("const_ref")]
+        true_ret = len(r2) == 1 and helper.term(r2[0]["value"]) == ("const", 1)
+        other_rets = [r for r in returns(helper) if r not in r2]
+        false_else = all(helper.term(r["value"]) == ("const", 0) for r in other_rets) and bool(other_rets)
+        good = bool(slot) and true_ret and false_else
+        if good:
+            passed = gi.term(call["args"][slot[0]])
+            grets = [r for r in returns(gi)]
+            cond = enclosing_if_cond(gi, grets[0]["id"]) if grets else (None, None)
+            good = len(grets) == 1 and gi.term(grets[0]["value"]) == passed and cond[0] is not None and gi.strip(cond[0]) == call["id"] and cond[1]
+        if good:
+            out.append(ok("R-SIB", inst, gi.loc(call["id"]), gi.qn, "the index returned is the one whose name matched", "the helper's result slot, on its true verdict"))
+        else:
+            out.append(bad("R-SIB", inst, gi.loc(gi.body), gi.qn, "the index returned is the one whose name matched", "return shape not recognised"))
+        co = F.fn(ARC + "::Contains", nparams=1)
+        crets = returns(co)
+        inst = ARC + "::Contains#returns-verdict"
+        if len(crets) == 1 and co.strip(crets[0]["value"]) == shared["Contains"][0][0]["id"]:
+            out.append(ok("R-SIB", inst, co.loc(crets[0]["id"]), co.qn, "membership is the shared scan's verdict", "return helper(...)"))
+        else:
+            out.append(bad("R-SIB", inst, co.loc(co.body), co.qn, "membership is the shared scan's verdict", "return shape not recognised"))
+    elif len(r2) == 1 and f2.term(r2[0]["value"]) == v2:
         out.append(ok("R-SIB", inst, f2.loc(r2[0]["id"]), f2.qn, "the index returned is the one whose name matched", "return i"))
     else:
         out.append(bad("R-SIB", inst, f2.loc(i2["id"]), f2.qn, "the index returned is the one whose name matched", "return shape not recognised"))
@@ -156,11 +219,14 @@ def resource_stream(F, S):
         elif "OpenStream" in s:
             kind = "archive"
             cont = [f for f in site if f[0] == "true" and f[1][0] == "call" and f[1][1] == ARC + "::Contains" and f[1][3] == (fname,)]
-            good = rooted and exists_t and exists_t[0][0] == "false" and acc_f and acc_f[0][0] == "true" and len(cont) == 1
+            # (the same archive may be named through the loop variable or through what the loop variable stands for)
+            archs = {fn.through_locals(f[1][2]) for f in cont}
+            good = rooted and exists_t and exists_t[0][0] == "false" and acc_f and acc_f[0][0] == "true" and len(archs) == 1
             if good:
-                arch = cont[0][1][2]
-                good = t[0] == "call" and t[1] == ARC + "::OpenStream" and t[2] == arch and \
-                    t[3] == (("call", ARC + "::GetIndex", arch, (fname,)),)
+                arch = list(archs)[0]
+                t2 = fn.through_locals(t)
+                good = t2[0] == "call" and t2[1] == ARC + "::OpenStream" and t2[2] == arch and \
+                    t2[3] == (("call", ARC + "::GetIndex", arch, (fname,)),)
             req = "an archive member is returned only when no loose file exists, archive access is enabled, and it is OpenStream(GetIndex(name)) of the archive whose Contains(name) held"
         else:
             if acc_f and acc_f[0][0] == "false":
